@@ -538,6 +538,35 @@ def r9_html_properties_escape(ctx, rep):
     if not _returns_unescaped_source(ex) or _returns_unescaped_source(ex2):
         raise AnalysisError("r9_html_properties_escape: the taint matcher fails on its own examples")
 
+
+def r10_initial_value_is_whole(ctx, rep):
+    """`name = expr`: the initial value is everything after the FIRST top-level `=`.  A split at every `=` followed by taking
+    element 1 cuts the expression at the next `=`, i.e. inside `==`, `/=`, `<=`, `>=` (`l = n == 3` is shown as `n`)."""
+    py = ctx.py
+    n = 0
+    for mod, fn in py.all_functions():
+        if mod != "sourceform":
+            continue
+        for st in ast.walk(fn):
+            if not (isinstance(st, ast.Assign) and len(st.targets) == 1 and isinstance(st.targets[0], ast.Name)
+                    and isinstance(st.value, ast.Call) and call_name(st.value).split(".")[-1] in ("paren_split", "split")
+                    and st.value.args and isinstance(st.value.args[0], ast.Constant) and st.value.args[0].value == "="):
+                continue
+            if call_name(st.value).split(".")[-1] == "split" and (len(st.value.args) > 1 or st.value.keywords):
+                continue      # str.split("=", 1): a single cut
+            S = st.targets[0].id
+            n += 1
+            elems = [x for x in ast.walk(fn) if isinstance(x, ast.Subscript) and isinstance(x.value, ast.Name) and x.value.id == S
+                     and isinstance(x.ctx, ast.Load)]
+            single = [x for x in elems if isinstance(x.slice, ast.Constant) and isinstance(x.slice.value, int) and x.slice.value >= 1]
+            tail = [x for x in elems if isinstance(x.slice, ast.Slice) and isinstance(x.slice.lower, ast.Constant) and x.slice.lower.value == 1]
+            ok = not single or bool(tail)
+            rep.ob(f"{py.qualname(fn)}: the value after `=` is taken whole (split `{S}`)", ok,
+                   "all pieces after the first `=` are kept" if ok else
+                   f"`{ast.unparse(single[0])}` is only the text up to the next `=`: `logical, parameter :: l = n == 3` is shown with the "
+                   f"initial value `n`, and `n >= 3` as `n>`", py.nloc(single[0] if single else st), nontrivial=not ok)
+    rep.ob("declarator / PARAMETER splits at `=` inspected", True, f"{n} multi-way split(s) at `=`", "ford/sourceform.py", nontrivial=False)
+
 RULES = [
     RuleSpec("C18.R5", r5_selector_regexes, "kind/len selector regexes capture the whole expression", floor=2),
     RuleSpec("C18.R4", r4_literals_and_argument_attributes, "literal case is preserved; argument attributes are complete", floor=3),
@@ -548,5 +577,6 @@ RULES = [
     RuleSpec("C18.R6", r6_relurl_plain_text, "relurl rewrites links and absolute paths only", floor=1),
     RuleSpec("C18.R7", r7_pure_properties, "display properties are free of side effects", floor=8),
     RuleSpec("C18.R9", r9_html_properties_escape, "HTML-valued declaration properties escape the text they embed", floor=2),
+    RuleSpec("C18.R10", r10_initial_value_is_whole, "the initial value is everything after the first `=`", floor=1),
     RuleSpec("C18.R8", r8_literal_continuation, "continued literals keep their blanks (shared with C02.R5)", floor=3),
 ]
